@@ -26,6 +26,9 @@ func main() {
 	if len(os.Args) > 1 && os.Args[1] == "seeded" {
 		os.Exit(seededMain(os.Args[2:]))
 	}
+	if len(os.Args) > 1 && os.Args[1] == "rulesdoc" {
+		os.Exit(rulesdocMain(os.Args[2:]))
+	}
 	if len(os.Args) > 1 && os.Args[1] == "dump" {
 		os.Exit(dumpMain(os.Args[2:]))
 	}
